@@ -770,10 +770,14 @@ pub(crate) fn check_if_response_is_matched(
 
     let (sampled_count, last_n_count) = if total_count - reorg_count > last_n_blocks {
         let difficulty_boundary: U256 = prev_request.difficulty_boundary().unpack();
-        let before_boundary_count = headers
-            .iter()
-            .take_while(|h| h.total_difficulty() < difficulty_boundary)
-            .count();
+        // The reorg headers are counted by their numbers, do not count them again by their total
+        // difficulties (which are sent by the peer and may be not less than the boundary).
+        let before_boundary_count = reorg_count
+            + headers
+                .iter()
+                .skip(reorg_count)
+                .take_while(|h| h.total_difficulty() < difficulty_boundary)
+                .count();
         let last_n_count = total_count - before_boundary_count;
         if last_n_count > last_n_blocks {
             (before_boundary_count - reorg_count, last_n_count)
